@@ -8,11 +8,12 @@ A *case* is JSON-serialisable:
 opspec: {"op": "send_command"|"send_commands"|"send_commands_from_file"|"send_and_read"|"send_interactive"|
                "send_configs"|"send_config"|"send_configs_from_file"|"read_callback", ...}   (see `_call`)
 The probe logs one entry per *model-level call site* (outermost instrumented call only) with the timeouts in force."""
-import asyncio, inspect, os, re, tempfile
+import asyncio, inspect, os, re, tempfile, time
 from copy import deepcopy
 
 from harness.simdevice import CliDevice
 from harness.simtransport import AsyncSimTransport, FaultPlan, SimTransport, make_conn
+from scrapli.decorators import timeout_wrapper
 from scrapli.exceptions import (ScrapliConnectionError, ScrapliPrivilegeError, ScrapliTimeout, ScrapliTypeError)
 
 FAIL_TEXT = "% Invalid input"
@@ -46,12 +47,43 @@ class _RigMixin:
         return super()._pre_read()
 
 
+BLOCK_MAX = 3.0     # a read that really blocks gives up after this long (the harness must never hang)
+
+
 class RigTransport(_RigMixin, SimTransport):
-    pass
+    @timeout_wrapper
+    def read(self) -> bytes:
+        self._pre_read()
+        if not self.buf:
+            if self.on_empty == "empty":
+                self.trace.append(("R", b""))
+                return b""
+            t0 = time.time()
+            while not self.buf:   # "block"
+                if self._wake.wait(0.005) or not self.opened:
+                    raise ScrapliConnectionError("transport closed while blocked in read")
+                if time.time() - t0 > BLOCK_MAX:
+                    raise RigRunaway("read blocked and nothing woke it")
+        return self._take()
 
 
 class AsyncRigTransport(_RigMixin, AsyncSimTransport):
-    pass
+    @timeout_wrapper
+    async def read(self) -> bytes:
+        self._pre_read()
+        if not self.buf:
+            if self.on_empty == "empty":
+                self.trace.append(("R", b""))
+                await asyncio.sleep(0)
+                return b""
+            t0 = time.time()
+            while not self.buf:
+                await asyncio.sleep(0.005)
+                if not self.opened:
+                    raise ScrapliConnectionError("transport closed while blocked in read")
+                if time.time() - t0 > BLOCK_MAX:
+                    raise RigRunaway("read blocked and nothing woke it")
+        return self._take()
 
 
 class _PushMixin:
